@@ -479,11 +479,13 @@ impl Gen {
         let mut body = String::new();
         for (i, y) in r.syls.iter().enumerate() {
             if i > 0 {
-                let w = match self.rng.below(12) {
+                let w = match self.rng.below(14) {
                     0 => "  ",
                     1 => "\t",
-                    2 if csv => "\u{3000}",
+                    2 => "\u{3000}",
                     3 if csv => ",",
+                    4 => "\u{a0}",
+                    5 => " \u{2003}",
                     _ => " ",
                 };
                 body.push_str(w);
@@ -556,6 +558,45 @@ struct Stats {
     lookups: u64,
     by_kind: BTreeMap<&'static str, u64>,
     by_cfg: BTreeMap<String, u64>,
+    /// realised input distribution of the generated well-formed sources
+    dist: BTreeMap<String, u64>,
+    /// per defect of a malformed line: reported / accepted (known class) / accepted (new)
+    defects: BTreeMap<String, u64>,
+    f34_changed: u64,
+    f34_unchanged_single_keys: u64,
+}
+
+/// realised distribution of one generated well-formed source (goes to the evidence as `#stat gen.*`)
+fn distribution(dist: &mut BTreeMap<String, u64>, ls: &[(String, Rec)], csv: bool, crlf: bool, final_nl: bool) {
+    let mut bump = |k: &str, n: u64| *dist.entry(k.to_string()).or_insert(0) += n;
+    bump(if csv { "sources.csv" } else { "sources.plain" }, 1);
+    bump("sources.crlf", crlf as u64);
+    bump("sources.no_final_newline", (!final_nl) as u64);
+    bump("lines", ls.len() as u64);
+    let d = if csv { ",," } else { "  " };
+    let mut leaves: BTreeMap<Vec<String>, Vec<String>> = BTreeMap::new();
+    for (text, r) in ls {
+        bump("lines.quoted", text.contains('"') as u64);
+        bump("lines.comment", text.contains(" # ") as u64);
+        bump("lines.repeated_delimiter", text.contains(d) as u64);
+        bump("lines.unicode_space", text.chars().any(|c| c.is_whitespace() && c != ' ') as u64);
+        bump("lines.non_bmp", text.chars().any(|c| c as u32 > 0xffff) as u64);
+        bump(&format!("records.syllables_{}", r.syls.len().min(4)), 1);
+        bump("records.max_freq", (r.freq >= u32::MAX - 2) as u64);
+        let leaf = leaves.entry(r.syls.clone()).or_default();
+        if leaf.contains(&r.phrase) {
+            bump("records.duplicate_of_earlier", 1);
+        } else {
+            leaf.push(r.phrase.clone());
+        }
+    }
+    bump("keys", leaves.len() as u64);
+    for (k, ps) in &leaves {
+        bump(&format!("leaf.phrases_{}", if ps.len() >= 4 { "4+".to_string() } else { ps.len().to_string() }), 1);
+        if (1..k.len()).any(|n| leaves.contains_key(&k[..n])) {
+            bump("keys.with_a_proper_prefix_key", 1);
+        }
+    }
 }
 
 fn src_text(lines: &[(String, Verdict)], crlf: bool, final_nl: bool) -> String {
@@ -627,16 +668,30 @@ fn check_source(
             _ => None,
         })
         .collect();
+    // F18: (key as dumped, phrase) of these records — such a pair may collide with another record of the source, which
+    // the dump then lists twice and the recompiled dictionary merges
+    let tone1_pairs: Vec<(Vec<String>, String)> = lines
+        .iter()
+        .skip(first)
+        .filter_map(|(_, v)| match v {
+            Verdict::Good(x) if x.syls.iter().any(|y| y.contains('ˉ')) => {
+                Some((x.syls.iter().map(|y| y.replace('ˉ', "")).collect(), x.phrase.clone()))
+            }
+            _ => None,
+        })
+        .collect();
     // a trailing CR-less empty last line etc. are lines of the file as the tool reads it; `lines` mirrors that
     let mut undetected: Vec<(usize, &'static str, Option<String>)> = vec![];
     for (i, kinds, ph) in &bad_lines {
         if r.reported.contains(&(i + 1)) {
             st.detected += 1;
+            *st.defects.entry(format!("{}.reported", kinds.join("+"))).or_insert(0) += 1;
         } else {
             let class = undetected_class(kinds, ph, cfg);
             if class != "new" {
                 st.undetected_known += 1;
             }
+            *st.defects.entry(format!("{}.accepted_{}", kinds.join("+"), class)).or_insert(0) += 1;
             fail(out, class, format!("malformed line {} ({}) is not reported", i + 1, kinds.join("+")));
             for k in kinds {
                 undetected.push((*i, *k, ph.clone()));
@@ -686,14 +741,16 @@ fn check_source(
             }
         };
         let mut got: BTreeMap<(Vec<String>, String), u32> = BTreeMap::new();
-        let mut dup = false;
+        let mut dups: Vec<(Vec<String>, String)> = vec![];
         for x in &recs {
             if got.insert((x.syls.clone(), x.phrase.clone()), x.freq).is_some() {
-                dup = true;
+                dups.push((x.syls.clone(), x.phrase.clone()));
             }
         }
-        if dup {
-            fail(out, "new", "dump lists the same (phrase, syllables) twice".into());
+        for k in &dups {
+            // two dumped lines can only read the same if one of them lost its first-tone mark (F18)
+            let class = if tone1_pairs.contains(k) { "F18-tone1" } else { "new" };
+            fail(out, class, format!("dump lists {:?} twice", k));
         }
         for (k, f) in &want {
             if junk_phrases.contains(&k.1) {
@@ -702,8 +759,9 @@ fn check_source(
             let kk = (k.0.iter().map(|s| s.replace('ˉ', "")).collect::<Vec<_>>(), k.1.clone());
             match got.get(k) {
                 Some(g) if g == f => {}
+                Some(_) if dups.contains(k) && tone1_pairs.contains(k) => {} // listed twice (F18, reported above): either frequency may come last
                 Some(g) => fail(out, "new", format!("record {:?} dumped with frequency {} instead of {}", k, g, f)),
-                None if has_tone1 && got.get(&kk) == Some(f) => {
+                None if has_tone1 && (got.get(&kk) == Some(f) || (dups.contains(&kk) && tone1_pairs.contains(&kk))) => {
                     fail(out, "F18-tone1", format!("record {:?} is dumped without its first-tone mark", k))
                 }
                 None => fail(out, "new", format!("record {:?} of the source is missing from the dump", k)),
@@ -732,13 +790,14 @@ fn check_source(
         let again = if *csvd { &r2.dump_csv } else { &r2.dump };
         // F18: two keys that differ only in the unspellable tone value merge when the dump is compiled again; the
         // records stay the same, their order may change.  Anything else is not that finding.
+        // … where the dump lists a pair twice (above), the later line replaces the earlier one when compiled again
         let same_records = match again.as_ref().map(|t| read_dump(t, *csvd)) {
-            Some(Ok(mut v2)) => {
-                let mut v1 = recs.clone();
-                let key = |x: &Rec| (x.syls.clone(), x.phrase.clone(), x.freq);
-                v1.sort_by_key(key);
-                v2.sort_by_key(key);
-                v1 == v2
+            Some(Ok(v2)) => {
+                let last_wins = |v: &[Rec]| -> BTreeMap<(Vec<String>, String), u32> {
+                    v.iter().map(|x| ((x.syls.clone(), x.phrase.clone()), x.freq)).collect()
+                };
+                let m1 = last_wins(recs);
+                m1 == last_wins(&v2) && v2.len() == m1.len()
             }
             _ => false,
         };
@@ -776,14 +835,26 @@ fn check_source(
                             a.len(),
                             a.iter().map(|(p, f)| format!("{}:{}", hx(p), f)).collect::<Vec<_>>().join(" ")
                         ).trim_end().to_string());
+                        // the recompiled file against the model as well (its source is the dump text)
+                        out.rec(&format!(
+                            "cli lookup {} {} {} => {} {}",
+                            cfg2.txt(),
+                            hx(text),
+                            keytxt,
+                            b.len(),
+                            b.iter().map(|(p, f)| format!("{}:{}", hx(p), f)).collect::<Vec<_>>().join(" ")
+                        ).trim_end().to_string());
+                        if cfg.sqlite && ks.len() == 1 && !tone1_keys.contains(&k) {
+                            if a != b { st.f34_changed += 1 } else { st.f34_unchanged_single_keys += 1 }
+                        }
                         if a != b {
+                            // F34, exactly (theorem recompiled_lookup_sqlite_single): SQLite, a one-syllable key, and the
+                            // recompiled file lists the same (phrase, frequency) pairs in ascending bytewise order of the text
                             let mut sa = a.clone();
-                            let mut sb = b.clone();
-                            sa.sort();
-                            sb.sort();
+                            sa.sort_by(|x, y| x.0.as_bytes().cmp(y.0.as_bytes()));
                             let class = if tone1_keys.contains(&k) {
                                 "F18-tone1"
-                            } else if cfg.sqlite && ks.len() == 1 && sa == sb {
+                            } else if cfg.sqlite && ks.len() == 1 && sa == b {
                                 "F34-sqlite-order"
                             } else {
                                 "new"
@@ -872,6 +943,10 @@ fn main() {
         lookups: 0,
         by_kind: BTreeMap::new(),
         by_cfg: BTreeMap::new(),
+        dist: BTreeMap::new(),
+        defects: BTreeMap::new(),
+        f34_changed: 0,
+        f34_unchanged_single_keys: 0,
     };
 
     // char::is_whitespace on every code point
@@ -908,6 +983,8 @@ fn main() {
         (true, vec!["anything at all, even \"this\""]),
         (false, vec!["測 5", "甲乙 7 ㄘㄜˋ"]),
         (false, vec!["吧 3 ㄅㄚˉ", "爸 4 ㄅㄚˋ"]),
+        // F18 with a collision: the dump lists a pair twice, the recompiled dictionary merges the two
+        (false, vec!["吧 1 ㄅㄚ", "吧 9 ㄅㄚˉ", "試吧 2 ㄕˋ ㄅㄚ", "試吧 3 ㄕˋ ㄅㄚˉ", "爸吧 7 ㄅㄚˋ ㄅㄚˉ", "爸吧 6 ㄅㄚˋ ㄅㄚ"]),
     ];
     for (csv, ls) in &fixed {
         let d = if *csv { ',' } else { ' ' };
@@ -980,6 +1057,7 @@ fn main() {
         st.good_sources += 1;
         let crlf = g.rng.chance(1, 5);
         let final_nl = !g.rng.chance(1, 5);
+        distribution(&mut st.dist, &ls, csv, crlf, final_nl);
         for cfg in all_cfgs(csv) {
             check_source(&mut cli, &mut out, &mut st, cfg, &lines, crlf, final_nl, true);
         }
@@ -1038,5 +1116,13 @@ fn main() {
     for (k, v) in &st.by_cfg {
         out.stat(&format!("cfg.{}", k.replace(' ', "_")), v);
     }
+    for (k, v) in &st.dist {
+        out.stat(&format!("gen.{}", k), v);
+    }
+    for (k, v) in &st.defects {
+        out.stat(&format!("defect.{}", k), v);
+    }
+    out.stat("sqlite_single_syllable_keys_order_changed_F34", st.f34_changed);
+    out.stat("sqlite_single_syllable_keys_order_kept", st.f34_unchanged_single_keys);
     out.flush();
 }
